@@ -632,6 +632,14 @@ func crossSchemeHistory(seed uint64, out []map[string]string, first int) {
 				ops = append(ops, cop{"vers:" + sc + "/" + body, p})
 			}
 		}
+		if k%4 == 0 { // twin questions: same concatenation of the two texts, split elsewhere (one scheme is enough)
+			sc := Schemes[r.IntN(len(Schemes))]
+			for _, p := range probes[:2] {
+				for _, tq := range twinQuestions("vers:"+sc+"/"+body, p) {
+					ops = append(ops, cop{tq[0], tq[1]})
+				}
+			}
+		}
 	}
 	for o := range out {
 		perm := core.Rand(seed, "C19", "crossorder", itoa(o+first)).Perm(len(ops))
@@ -713,6 +721,19 @@ func runC19(c *core.Ctx, ck *Check) {
 	c.Parallel(len(all), func(pw *core.W, i int) {
 		for _, v := range volumeRun(c, pw, all[i], nil, nil, nil, "c19", c.Scale(560000, 2200000)) {
 			if !strings.Contains(v.Rule, "transitivity") { // the order laws are C01's subject
+				pw.Report(v)
+			}
+		}
+	})
+	var rangeEcos []*eco.Eco
+	for _, e := range all {
+		if _, ok := CmpTable[e.Name]; ok {
+			rangeEcos = append(rangeEcos, e)
+		}
+	}
+	c.Parallel(len(rangeEcos), func(pw *core.W, i int) {
+		for _, v := range volumeRanges(c, pw, rangeEcos[i], CmpTable[rangeEcos[i].Name], "c19", c.Scale(120000, 600000)) {
+			if strings.HasPrefix(v.Rule, "after-volume:") { // ordinary range/Compare disagreements are C02's subject
 				pw.Report(v)
 			}
 		}
@@ -939,6 +960,16 @@ func evalC19(c *core.Ctx, e *eco.Eco, op string, args []string) []core.Violation
 	}
 	if e == nil {
 		return nil
+	}
+	if op == "volume-ranges" && len(args) >= 2 {
+		v, _ := strconv.Atoi(args[1])
+		var out []core.Violation
+		for _, x := range volumeRanges(c, c.NewW(), e, CmpTable[e.Name], args[0], v) {
+			if strings.HasPrefix(x.Rule, "after-volume:") {
+				out = append(out, x)
+			}
+		}
+		return out
 	}
 	if op == "volume" && len(args) >= 2 {
 		v, _ := strconv.Atoi(args[1])
